@@ -462,3 +462,27 @@ def add_source_tcv(rng, scn):
          'status': 'ACTIVE', 'setting': rng.pick([5.0, 50.0, 500.0])}
     scn['links'].append(v)
     return v
+
+
+def add_valve_bypass(rng, scn):
+    """a bypass pipe between the two nodes of a valve, closed by a time control during the run (and sometimes opened again): while it is
+    closed the valve - usually Active, not Open - is the only link of that node pair that still connects"""
+    valves = [l for l in scn['links'] if l['type'] == 'valve' and l['a'].startswith('J') and l['b'].startswith('J')
+              and not any(x is not l and frozenset((x['a'], x['b'])) == frozenset((l['a'], l['b'])) for x in scn['links'])]
+    if not valves:
+        return None
+    v = rng.pick(valves)
+    a, b = (v['a'], v['b']) if rng.chance(0.5) else (v['b'], v['a'])
+    n = 1 + sum(1 for l in scn['links'] if l['id'].startswith('bp'))
+    bp = {'id': 'bp%d' % n, 'type': 'pipe', 'a': a, 'b': b, 'len': _r(rng.uni(20.0, 300.0), 1), 'diam': rng.pick([0.15, 0.2, 0.3]),
+          'rough': float(rng.pick([100, 120, 140])), 'minor': 0.0, 'status': 'OPEN', 'cv': False}
+    scn['links'].insert(scn['links'].index(v) + (1 if rng.chance(0.5) else 0), bp)
+    t1 = time_instant(rng, scn)
+    scn['controls'].append({'name': 'bpc%d' % n, 'kind': 'simple', 'cond': {'t': 'simtime', 'rel': '=', 'thr': int(t1)},
+                            'then': [{'link': bp['id'], 'attr': 'status', 'value': 'CLOSED'}], 'priority': 3})
+    if rng.chance(0.4):
+        t2 = time_instant(rng, scn)
+        if t2 > t1:
+            scn['controls'].append({'name': 'bpo%d' % n, 'kind': 'simple', 'cond': {'t': 'simtime', 'rel': '=', 'thr': int(t2)},
+                                    'then': [{'link': bp['id'], 'attr': 'status', 'value': 'OPEN'}], 'priority': 3})
+    return bp
